@@ -40,6 +40,12 @@ CHECKS.update({
             "Bounds: <=2 messages per direction, retry budget 2-3 (code constant patched in the harness), <=3 faults; one executor; in-memory network and virtual clock (harness fakes); heartbeats off."),
 })
 
+CHECKS.update({
+    "C18": ("model_checking", "gateway", "TLC model checking of spec/Gateway.tla + TLC -simulate behaviours replayed into the real JobRouter through the real handle_controller/handle_fe with real serialised reports and JSON requests",
+            "ProgressIsNewest, ResultsExact and faithful/erroring answers hold for every order and duplication of reports and requests within the bounds, and the real gateway follows TLC-generated behaviours step by step (progress, results, socket registration, every response, no exception escaping a handler, fresh job ids).",
+            "Bounds: 2 jobs, 2 datasets, 2 payloads, <=4 timestamps; equal timestamps imply equal progress; sockets/poller/subprocess are harness fakes."),
+})
+
 NOT_YET = {
 }
 
@@ -72,6 +78,8 @@ def main():
              "kind_free_text": "enumerate / execute / validate: TLC generates the cases from the spec's domain, the harness runs the real function, TLC evaluates the spec's post-condition"},
             {"name": "acked", "path": "harness/props/c06.py", "serves_properties": ["C06"],
              "kind_free_text": "TLC on spec/Acked.tla + behaviour replay into the real comms layer and endpoint loops"},
+            {"name": "gateway", "path": "harness/props/c18.py", "serves_properties": ["C18"],
+             "kind_free_text": "TLC on spec/Gateway.tla + behaviour replay into the real router and handlers"},
             {"name": "shm", "path": "harness/shm_engine.py", "serves_properties": ["C08", "C09"],
              "kind_free_text": "TLC model checking of spec/Shm.tla + TLC-generated behaviours replayed into the real Manager"},
         ],
